@@ -5,7 +5,11 @@ REV=""
 if [ "$1" = "-R" ]; then REV="-R"; shift; fi
 P=$(readlink -f "$1"); shift; [ "$1" = "--" ] && shift
 if [ -n "$(git -C /repo status --porcelain --untracked-files=no)" ]; then echo "/repo is dirty; refusing" >&2; exit 3; fi
-git -C /repo apply $REV "$P" || { echo "patch does not apply" >&2; exit 3; }
+if ! git -C /repo apply $REV "$P" 2>/dev/null; then
+  # the patch was made against an earlier commit of /repo: fall back to a 3-way merge
+  git -C /repo apply $REV --3way "$P" >/dev/null 2>&1 || { git -C /repo reset -q --hard HEAD; echo "patch does not apply" >&2; exit 3; }
+  if grep -rq '^<<<<<<< ' /repo/src; then git -C /repo reset -q --hard HEAD; echo "patch conflicts with the current tree" >&2; exit 3; fi
+fi
 cd /verif && "$@"; rc=$?
-git -C /repo checkout -- . 
+git -C /repo reset -q --hard HEAD
 exit $rc
